@@ -204,7 +204,7 @@ def run(A, R: Report, thorough: bool):
         conj = all_conj(g)
         ign = any(c[0] == 'attr' and c[2] == 'ignore_persistence' and not pol for c, pol in conj)
         dflt = any(not pol and c[0] == 'and' and any(y[0] == 'attr' and y[2] == 'dont_persist_default_value' for y in c[1]) and any(y[0] == 'cmp' and y[1] == 'Eq' and any(z[0] == 'attr' and z[2] == 'default' for z in y[2:]) for y in c[1])
-                   for c, pol in g) or \
+                   for c, pol in list(g) + conj) or \
             (any(c[0] == 'attr' and c[2] == 'dont_persist_default_value' and not pol for c, pol in conj))
         # equivalent nested form: if dont_persist: if value == default: return None
         if not dflt:
@@ -225,6 +225,10 @@ def run(A, R: Report, thorough: bool):
         R.check(not missing, 'R02.4', 'AutoParameterObject.repr', key_of('apo-skips', missing), 'ignored / IgnoreForPersistence / default-valued arguments skipped', f'AutoParameterObject.repr no longer skips {missing}', where=where(K.f_apo))
     fv = K.f_apo.cls.lookup('ignore_persistence_args')
     R.check(fv is not None and "'verbose'" in src(fv.node), 'R02.4', 'AutoParameterObject.ignore_persistence_args', key_of('ignored-default'), 'verbose/debug ignored by default', 'default ignored arguments changed', where=where(fv) if fv else None)
+
+    # ---- R02.6 key derivation is stateless
+    from .purity import check_key_stateless
+    check_key_stateless(A, R, 'R02.6')
 
     # ---- R02.5
     R.rule('R02.5', 'an object\'s own repr attribute wins over the plain-string branch; ReprStr.__repr__ returns the stored text, encoded exactly once', floor=3)
